@@ -73,6 +73,9 @@ def cases(tier, seed):
     for k in range(1500 if q else 20000):
         i += 1
         yield {"id": i, "fam": "hier", "seed": base + k, "hlen": 8 if k % 4 else 30}
+    for k in range(500 if q else 6000):
+        i += 1
+        yield {"id": i, "fam": "hier", "seed": base + 5_000_000 + k, "hlen": 8 if k % 4 else 20, "api": True}
     L = 5 if q else 7
     nprog = 12 if q else 40
     for k in range(nprog):
@@ -138,6 +141,7 @@ def _finish(base, prog, history):
         "max_active_heads": max([f["active_heads"] for f in _W["facts"]] or [0]),
         "max_index_entries": max([f["index_entries"] for f in _W["facts"]] or [0]),
         "fam_" + base["fam"]: 1,
+        "cases_through_process_events": int(bool(base.get("api"))),
     }
     res = dict(base, observed=obs, nontrivial=nontrivial)
     if _W["problems"]:
@@ -158,15 +162,22 @@ def _drive(src, history, seed, base):
     rng = random.Random(seed ^ 0x5EED)
     _begin()
     fed = []
+    api = None
     try:
-        st = v2h.mk(src)
+        if base.get("api"):
+            api = v2h.ApiSession(src)  # every run_to_completion round inside process_events is checked by the same hook
+            st = api.st
+            first_out = api.out
+        else:
+            st = v2h.mk(src)
+            first_out = st.outgoing_events
     except v2h.LoaderReject as e:
         return dict(base, verdict="inconclusive", reason="loader-reject", detail=str(e)[:200])
     except steps.StepBudgetExceeded:
         return dict(base, verdict="inconclusive", reason="expected:nonterminating(C10)")
     live = []
     try:
-        for e in st.outgoing_events:
+        for e in first_out:
             if e["type"].startswith("Start") and e["type"].endswith("Action"):
                 live.append((e["type"][5:], e["action_uid"]))
         for h in history:
@@ -180,7 +191,7 @@ def _drive(src, history, seed, base):
             else:
                 ev = {"type": h}
             fed.append(ev["type"])
-            out = v2h.run(st, ev)
+            out = api.run(ev) if api is not None else v2h.run(st, ev)
             for e in out:
                 if e["type"].startswith("Start") and e["type"].endswith("Action"):
                     live.append((e["type"][5:], e["action_uid"]))
@@ -207,12 +218,14 @@ def run_case(case):
     fam = case["fam"]
     rng = random.Random(case["seed"])
     base = {"fam": fam}
+    if case.get("api"):
+        base["api"] = True
     if fam == "hier":
         g = gen_v2.gen_hierarchy(rng, max_flows=6, with_vars=rng.random() < 0.3, loops=rng.random() < 0.3, depth_bias=rng.random() < 0.5, ext_end=rng.random() < 0.4)
         hist = []
         for _ in range(case["hlen"]):
             hist.append("FIN" if rng.random() < 0.3 else "E%d" % rng.randint(1, 3))
-        base.update(key="hier:%d:%d" % (case["seed"], case["hlen"]), sample={"family": fam, "program": g["src"], "history": hist})
+        base.update(key="hier:%d:%d:%s" % (case["seed"], case["hlen"], bool(case.get("api"))), sample={"family": fam, "program": g["src"], "history": hist})
         return _drive(g["src"], hist, case["seed"], base)
     if fam == "exh":
         g = gen_v2.gen_hierarchy(rng, max_flows=4, with_vars=False, loops=False, ext_end=rng.random() < 0.4)
